@@ -13,7 +13,7 @@ from .contracts import REGISTRY, LEMMAS
 from .engine import Exec, Unsupported, SpecDrift, solve, Obligation, State
 from .source import Repo, normalized_hash
 
-SPEC_MODULES = ["specs.heap", "specs.graph", "specs.supervised", "specs.semi", "specs.knn", "specs.arcs", "specs.knn_predict", "specs.kselect", "specs.general"]
+SPEC_MODULES = ["specs.heap", "specs.graph", "specs.supervised", "specs.semi", "specs.knn", "specs.arcs", "specs.knn_predict", "specs.kselect", "specs.general", "specs.prune"]
 
 
 def load_specs():
@@ -126,6 +126,7 @@ def verify_lemma(repo, lem):
     ex.defs = []
     ex._verify_ns = set()
     ex._verify_keep = []
+    ex.vghost = {}
     st = State()
     from .engine import wrap
     args = {}
